@@ -5,6 +5,8 @@
                      watched items (all whose bytes intersect the update, plus silent ones):
                      field word before / after, label list (enums), the history `ops` of
                      watch/unwatch calls on that item: [op |-> "w"|"u"|"ua", o |-> id]
+           installed                      the block after the step is the block before it with the
+                                          segment written at off (byte comparison by the harness)
            calls = << [item (index into items), o, old, new, sawnew] ... >>
                      callbacks received during the step, with decoded old/new:
                      [k |-> "label"|"bool"|"int"|"time"|"temp", s, n, hh, mm, num, den]      *)
@@ -40,7 +42,8 @@ Denotes(it, a, w) ==
 CallsFor(r, i, o) == { c \in 1..Len(r.calls) : r.calls[c].item = i /\ r.calls[c].o = o }
 Verdict(r) ==
   LET N == Len(r.items) IN
-  IF \E i \in 1..N : \E o \in Live(r.items[i].ops) :
+  IF ~r.installed THEN "update-not-installed"
+  ELSE IF \E i \in 1..N : \E o \in Live(r.items[i].ops) :
         Dec(r.items[i], r.items[i].oldw) # Dec(r.items[i], r.items[i].neww) /\ Cardinality(CallsFor(r, i, o)) = 0
   THEN "changed-but-silent"
   ELSE IF \E i \in 1..N : \E o \in Live(r.items[i].ops) : Cardinality(CallsFor(r, i, o)) > 1
